@@ -13,6 +13,8 @@ element only), and the failure clause is also judged under FixCom, where a vetoe
 attempt has shifted every atom.
 Labels also come as packed 64-bit ids, in unsigned and narrow integer dtypes, as plain lists, and are re-assigned on
 live moves through set_labels (with a fresh array, or with the user's own array edited in place).
+Every move is judged against the labelling the workload gave that object (not the one the object holds); a bystander move
+built from the same labelling is called again after its sibling was re-labelled.
 """
 from __future__ import annotations
 
@@ -32,7 +34,7 @@ ASSUMPTIONS = [
     "composite clauses are judged for composites whose elements share one labeling (m*n and m+m' over equal label arrays)",
     "pre-selected targets are existing non-negative labels",
 ]
-REQUIRED = {"relabelled_live_moves": 100, "single_fail_veto_under_constraint": 100, "composite_calls_with_preselected_elements": 300, "single_calls": 3000, "single_success": 1500, "single_fail_no_eligible": 100, "single_fail_veto": 100, "composite_calls": 1500, "composite_partial": 100, "preselected_calls": 300, "molecule_moves": 500, "negative_label_rows_watched": 1000}
+REQUIRED = {"relabelled_live_moves": 100, "bystander_calls_after_a_sibling_was_relabelled": 100, "single_fail_veto_under_constraint": 100, "composite_calls_with_preselected_elements": 300, "single_calls": 3000, "single_success": 1500, "single_fail_no_eligible": 100, "single_fail_veto": 100, "composite_calls": 1500, "composite_partial": 100, "preselected_calls": 300, "molecule_moves": 500, "negative_label_rows_watched": 1000}
 SHARD_TIMEOUT = {"quick": 900, "thorough": 3000}
 
 CALC_LOG: list = []
@@ -71,7 +73,7 @@ def install(rec: Rec):
     def single(self, context):
         if type(self) is not DisplacementMove:
             return orig_single(self, context)
-        pre = {"pos": context.atoms.positions.copy(), "labels": np.array(self.labels, copy=True), "target": self.to_displace_labels, "ncalc": len(CALC_LOG)}
+        pre = {"pos": context.atoms.positions.copy(), "labels": intended_labels(self), "target": self.to_displace_labels, "ncalc": len(CALC_LOG)}
         out = orig_single(self, context)
         judge_single(rec, self, context, pre, out)
         return out
@@ -184,7 +186,7 @@ def judge_comp(rec, comp, ctx, pre, out):
     rec.count("composite_calls")
     rec.evaluations += 1
     moves = list(comp.moves)
-    labelings = [np.asarray(m.labels) for m in moves]
+    labelings = [intended_labels(m) for m in moves]
     shared = all(l.shape == labelings[0].shape and np.array_equal(l, labelings[0]) for l in labelings)
     inner = INNER[pre["inner"] :]
     chosen = [c for (_, c, ok, _) in inner if ok and c is not None]
@@ -336,11 +338,14 @@ def run(spec):
                 m.max_attempts = int(rng.integers(1, 5))
             VETO[id(m)] = vmode
             KEEP.append(m)  # keep alive so ids stay unique
+            intend_labels(m, labels)
             return m
 
         try:
             if mode < 0.5:
                 m = new_move()
+                # a bystander built from the same labelling before the first move is re-labelled: it keeps its own
+                bystander = new_move() if rng.random() < 0.3 else None
                 for rep in range(3):
                     if rep == 1 and rng.random() < 0.3:
                         # the particles re-labelled on the live move through the documented set_labels(): every clause
@@ -351,9 +356,14 @@ def run(spec):
                         else:
                             # the user's own array edited in place and handed to set_labels again
                             arr = m.labels
-                            arr[...] = labels
+                            arr[...] = labels  # (numpy casts to the array's own dtype: what the user hands over is arr)
                             m.set_labels(arr)
+                            labels = np.array(arr, copy=True)
+                        intend_labels(m, labels)
                         rec.count("relabelled_live_moves")
+                        if bystander is not None:
+                            bystander(ctx)
+                            rec.count("bystander_calls_after_a_sibling_was_relabelled")
                     nn = labels[labels >= 0]
                     if len(nn) and rng.random() < 0.3:
                         m.to_displace_labels = int(rng.choice(nn))
@@ -388,3 +398,17 @@ def run(spec):
 
 VETO: dict = {}
 KEEP: list = []
+INTENDED: dict = {}
+
+
+def intend_labels(move, labels):
+    """The workload's own record of the labelling it gave this move object."""
+    INTENDED[id(move)] = (move, np.array(labels, copy=True))
+
+
+def intended_labels(move):
+    """The labelling a move is judged against: what the workload gave that object, not what the object now holds."""
+    got = INTENDED.get(id(move))
+    if got is not None and got[0] is move:
+        return got[1].copy()
+    return np.array(move.labels, copy=True)
